@@ -4,7 +4,7 @@ use crate::bind::*;
 use crate::engine::*;
 use crate::model::*;
 use crate::props::common::*;
-use owlchess::movegen::{legal, semilegal};
+use owlchess::movegen::legal;
 use owlchess::moves::make::{Make, TryUnchecked};
 use owlchess::moves::{make_move_unchecked, unmake_move_unchecked};
 use owlchess::Board;
